@@ -98,7 +98,13 @@ func histRecord(out io.Writer, args []string) error {
 				return float64(x)
 			}
 			top := int64(math.Min(150, math.Pow(float64(b), float64(nb)/float64(m))*2+3))
-			draw = func() int64 { return rng.Int63n(top + 1) }
+			draw = func() int64 {
+				v := rng.Int63n(top + 1)
+				if rng.Intn(8) == 0 {
+					return -v // negative values lie below the range of a logarithmic histogram
+				}
+				return v
+			}
 		}
 		if _, bins, _ := h.Counts(); len(bins) != sh.NBins {
 			// the harness asked for nbins bins; a different number is logged and will not match New
